@@ -152,8 +152,24 @@ def run(ck):
         for name in NAMES + ["d.bin"]:
             if sum(1 for d in DIRS if norm(d + "/" + name) in files and files[norm(d + "/" + name)][0] != 'dir') >= 2:
                 amb += 1
-        cases.append({"arch": "z80", "files": fs, "cwd": "/w", "root": root_arg, "paths": paths})
+        # does the order of the -I directories matter for this program?  (the same tree searched in sorted / reversed order)
+        sens = False
+        for alt in (sorted(paths), list(reversed(paths)), list(dict.fromkeys(paths))):
+            if alt != paths:
+                try:
+                    sens = sens or ("OK " + expand(files, root_dir + "/main.asm", alt).hex()) != e
+                except (Missing, RecursionError):
+                    sens = sens or e != "DIAG"
+        cases.append({"arch": "z80", "files": fs, "cwd": "/w", "root": root_arg, "paths": paths, "order_sensitive": sens})
         expect.append(e); ambiguous.append(amb)
+    # @incbin is the file's bytes, all of them: files that fill the address space exactly, or miss / exceed it by one
+    for nbytes, org in ((65536, 0), (65535, 0), (65535, 1), (65537, 0), (65536, 1), (40000, 25536), (40000, 25537)):
+        blob = bytes((k * 7 + k // 251) % 256 for k in range(nbytes))
+        fs = {"/w/src/main.asm": '@org %d\n@incbin "big.bin"\n' % org, "/w/src/big.bin": blob}
+        for d in DIRS:
+            fs.setdefault(d + "/.keep", "")
+        cases.append({"arch": "z80", "files": fs, "cwd": "/w", "root": "src/main.asm", "paths": [], "order_sensitive": False})
+        expect.append("OK " + blob.hex() if org + nbytes <= 65536 else "DIAG"); ambiguous.append(0)
     impl, mod, ic = asmk.run_full(harness, model, cases)
     ck.evaluations += len(cases)
     for c, e, a, icase, amb in zip(cases, expect, impl, ic, ambiguous):
@@ -176,8 +192,11 @@ def run(ck):
     scratch = tempfile.mkdtemp(prefix="az65_c12_")
     try:
         n = 0
-        for c, e in zip(cases, expect):
-            if n >= (120 if thorough else 25):
+        # the programs for which the order (and repetition) of the -I options decides the outcome first
+        order = sorted(range(len(cases)), key=lambda i: (not cases[i].get("order_sensitive"), i))
+        ck.count("cli:order-sensitive-available", sum(1 for c in cases if c.get("order_sensitive")))
+        for c, e in ((cases[i], expect[i]) for i in order):
+            if n >= (160 if thorough else 40):
                 break
             n += 1
             base = os.path.join(scratch, "t%d" % n)
